@@ -95,6 +95,10 @@ func vPanics(f func()) (p bool) {
 }
 
 func vNoMerge(f func())       { f() }
+
+// vSkipTables: inside f the executor does not run (*LunarYear).compute, so NewLunarYear can take a symbolic year;
+// natively f simply runs (the table is computed, which does not affect the fields the harness looks at).
+func vSkipTables(f func()) { f() }
 func vFork(c bool) bool       { return c }
 func vConcretize(x int) int   { return x }
 func vNative() bool           { return true }
